@@ -10,7 +10,7 @@
    repair), [fx] = false the block before it. *)
 From Coq Require Import List.
 Import ListNotations.
-From Verif Require Import Model.Ops Proofs.Ops.
+From Verif Require Import Model.Ops Proofs.Ops Proofs.OpsTerm.
 
 (* never two worker goroutines alive at once; in particular never two ops
    between pop and end of fn() *)
@@ -66,6 +66,19 @@ Theorem c05_exactly_once : forall cbk cls sch,
   count_live (workers s) = 0 /\ queue s = [].
 Proof. exact exactly_once_fixed. Qed.
 Print Assumptions c05_exactly_once.
+
+(* termination: no schedule takes more than phi(initial state) effective
+   steps (phi is linear in the number of threads and the op depths), and every
+   schedule can be extended to a state in which nothing can move - so the
+   quiescent states c05_exactly_once speaks about are exactly the ends of the
+   maximal schedules, and every maximal schedule is finite *)
+Theorem c05_terminates : forall fx cbk cls sch,
+  Forall initial_cpc cls ->
+  let s0 := init cbk cls in
+  effective fx s0 sch <= phi s0 /\
+  exists ext, quiescent fx (run fx s0 (sch ++ ext)).
+Proof. exact terminates. Qed.
+Print Assumptions c05_terminates.
 
 (* close(o.busyCh) never hits a nil or closed channel *)
 Theorem c05_no_close_panic : forall fx cbk cls sch,
